@@ -27,8 +27,85 @@ def hCloneLegacyLayer : Handler := handler fun
     pure (.list [ofLGraph r.1, SExp.ofBool r.2])
   | _ => none
 
+def layerMap? (e : SExp) : Option LayerMap := do
+  (← e.toList?).mapM fun
+    | .list [n, ds, leaf] => do some (← Obj.ofSExp? n, (← objs? ds, ← leaf.toBool?))
+    | _ => none
+
+def depMap? (e : SExp) : Option (List (Obj × List Obj)) := do
+  (← e.toList?).mapM fun
+    | .list [n, ds] => do some (← Obj.ofSExp? n, ← objs? ds)
+    | _ => none
+
+def LayerOrigin.toSExp : LayerOrigin → SExp
+  | .blocker => .list [.sym "blocker"]
+  | .cloned prev b => .list [.sym "cloned", prev.toSExp, SExp.ofBool b]
+  | .verbatim => .list [.sym "verbatim"]
+
+/-- the order in which the model pops the Python sets: 0 = first, 1 = last, 2 = middle -/
+def selOf (n : Nat) : List Obj → Nat := fun w =>
+  match n with
+  | 0 => 0
+  | 1 => w.length - 1
+  | _ => w.length / 2
+
+/-- `(bind_one G child omit rho blocker|noblocker B order1 order2)` with `G = ((name (deps…) leaf) …)`,
+    `B = ((name (deps…)) …)` ↦ `(ok ((name origin (deps…)) …))` | `(keyerror k)` | `(fuel)`: `_bind_one`'s
+    `new_layers` / `new_deps` -/
+def hBindOne : Handler := handler fun
+  | [g, child, om, rho, blk, b, o1, o2] => do
+    let G ← layerMap? g
+    let child ← objs? child
+    let blk ← match blk with
+      | .sym "noblocker" => some none
+      | e => (Obj.ofSExp? e).map some
+    match bindOne G child (← objs? om) (rhoOfList (← lgraph? rho)) blk (← depMap? b) (selOf (← o1.toNat?)) (selOf (← o2.toNat?))
+        (bindFuel G child) with
+    | .ok acc =>
+      pure (.list [.sym "ok", .list (acc.layers.map fun (n, o) =>
+        .list [n.toSExp, o.toSExp, .list (((acc.deps.lookup n).getD []).map Obj.toSExp)])])
+    | .keyError k => pure (.list [.sym "keyerror", k.toSExp])
+    | .fuel => pure (.list [.sym "fuel"])
+  | _ => none
+
+def bwArg? : SExp → Option BwArg
+  | .list [.sym "name", k] => do some (BwArg.name (← Obj.ofSExp? k))
+  | .list [.sym "ref", k] => do some (BwArg.ref (← Obj.ofSExp? k))
+  | .list [.sym "other"] => some BwArg.other
+  | _ => none
+
+def BwArg.toSExp : BwArg → SExp
+  | .name k => .list [.sym "name", k.toSExp]
+  | .ref k => .list [.sym "ref", k.toSExp]
+  | .other => .list [.sym "other"]
+
+/-- `(bw_clone (names…) rho bindto|nobind output (indices…) (numblocks-keys…) taskkey)` ↦
+    `((output (indices…) (numblocks…) taskkey wrapped|none) bound)` -/
+def hBwClone : Handler := handler fun
+  | [names, rho, bindTo, out, idx, nb, tk] => do
+    let idx ← (← idx.toList?).mapM bwArg?
+    let r := blockwiseClone (← objs? names) (rhoOfList (← lgraph? rho)) (← bindTo? bindTo)
+      ⟨← Obj.ofSExp? out, idx, ← objs? nb, ← Obj.ofSExp? tk⟩
+    pure (.list [.list [r.1.output.toSExp, .list (r.1.indices.map BwArg.toSExp), .list (r.1.numblocks.map Obj.toSExp),
+      r.1.taskKey.toSExp, SExp.ofOptNat r.1.wrapped], SExp.ofBool r.2])
+  | _ => none
+
+/-- `(checkpoint_reduce2 name split_every (mapkeys…) fuel|auto)` ↦ `(ok ((key (inputs…)) …))` | `(fuel)` -/
+def hCheckpointReduce2 : Handler := handler fun
+  | [name, se, mk, fuel] => do
+    let name ← Obj.ofSExp? name
+    let mapKeys ← objs? mk
+    let fuel ← match fuel with
+      | .sym "auto" => some (mapKeys.length + 1)
+      | e => e.toNat?
+    match checkpointReduce? name (fun i => .tuple [name, .int i]) (← se.toNat?) fuel mapKeys [] with
+    | some r => pure (.list [.sym "ok", .list (r.map fun (k, ins) => .list [k.toSExp, .list (ins.map Obj.toSExp)])])
+    | none => pure (.list [.sym "fuel"])
+  | _ => none
+
 /-- extra handlers of the C16 model: `(op, handler)` pairs appended to the table of `dm_graph` -/
 def renameIoHandlers : List (String × Handler) :=
-  [("clone_spec_layer", hCloneSpecLayer), ("clone_legacy_layer", hCloneLegacyLayer)]
+  [("clone_spec_layer", hCloneSpecLayer), ("clone_legacy_layer", hCloneLegacyLayer), ("bind_one", hBindOne),
+   ("bw_clone", hBwClone), ("checkpoint_reduce2", hCheckpointReduce2)]
 
 end Dask.TaskTerm
